@@ -953,3 +953,54 @@ def clippy_crosscheck(P, log=None):
     # reverse direction is an error (the driver must not miss a reachable site clippy sees in the same file/line set)
     return (not only_driver), {"clippy_sites": len(cl), "driver_sites": len(mine), "only_clippy": [f"{f}:{l}" for f, l in only_clippy][:20],
                                "only_driver": [f"{f}:{l}" for f, l in only_driver][:20]}
+
+
+def rule_n6(P):
+    """Hidden shared mutable state (C01): the only interior-mutable state a job can reach through the two Context structs are the
+    scheduler-ordered slots (ContextItem / ContextMap).  Any other Context field whose type - followed through workspace ADTs -
+    contains a lock, atomic, cell or channel is state shared between jobs that no declared dependency orders (seed C01e: a cache
+    of variation models behind an RwLock; which job fills it first decides the bytes)."""
+    import re
+    findings, obl = [], []
+    MUT = re.compile(r"\b(RwLock|Mutex|RefCell|Cell|OnceCell|OnceLock|LazyLock|LazyCell|Condvar|Sender|Receiver|DashMap|Atomic[A-Z][A-Za-z0-9]*)\b")
+    SLOT = ("fontir::orchestration::ContextItem<", "fontir::orchestration::ContextMap<")
+    n = 0
+    for ctx in ("fontir::orchestration::Context", "fontbe::orchestration::Context"):
+        a = P.adts.get(ctx)
+        if not a:
+            raise RuntimeError(f"N6: {ctx} not found")
+        for v in a["variants"]:
+            for f in v["fields"]:
+                ty = f["ty"]
+                if ty.startswith(SLOT):
+                    continue
+                n += 1
+                seen, todo, hit = set(), [ty], None
+                while todo and len(seen) < 200 and not hit:
+                    t = todo.pop()
+                    if t in seen:
+                        continue
+                    seen.add(t)
+                    if t.startswith(SLOT):
+                        continue
+                    m = MUT.search(t)
+                    if m:
+                        hit = (m.group(1), t)
+                        break
+                    for name in re.findall(r"[A-Za-z_][A-Za-z0-9_]*(?:::[A-Za-z_][A-Za-z0-9_]*)+", t):
+                        if name in (ctx, "fontir::orchestration::Context"):
+                            continue   # the backend's read-only view of the frontend context is checked as its own struct
+                        ad = P.adts.get(name)
+                        if ad:
+                            for vv in ad["variants"]:
+                                for ff in vv["fields"]:
+                                    todo.append(ff["ty"])
+                ok = hit is None
+                obl.append({"rule": "N6", "inst": f"{ctx}.{f['name']} (not a slot) holds no lock/atomic/cell/channel", "ok": ok})
+                if not ok:
+                    findings.append({"rule": "N6", "key": f"N6|{ctx}.{f['name']}", "msg": f"{ctx}.{f['name']} is not a ContextItem/ContextMap slot but contains {hit[0]} ({hit[1][:90]}): "
+                                     f"state shared between jobs outside the scheduler's declared dependencies - whichever job touches it first decides what the others see, so the font depends on the interleaving",
+                                     "loc": a.get("span", "?"), "detail": {}})
+    if n < 5:
+        raise RuntimeError(f"N6: only {n} non-slot Context fields found")
+    return findings, obl
